@@ -65,6 +65,26 @@ def seeded_cases(pid: str):
     return out
 
 
+def twin_cases(pid: str):
+    """Confirmed behaviour-preserving changes (from independent sub-agents): the check must stay silent.
+    A twin is run for its own property and for every property listed in meta['also_checks']."""
+    out = []
+    td = os.path.join(VERIF, "twins")
+    if not os.path.isdir(td):
+        return out
+    for d in sorted(os.listdir(td)):
+        mp = os.path.join(td, d, "meta.json")
+        pp = os.path.join(td, d, "patch.diff")
+        if os.path.exists(mp) and os.path.exists(pp):
+            try:
+                meta = json.load(open(mp))
+            except Exception:
+                continue
+            if meta.get("property") == pid or pid in (meta.get("also_checks") or []):
+                out.append({"name": "twins/" + d, "kind": "twin", "patch": pp, "edits": []})
+    return out
+
+
 def run_case(pid: str, case, root: str, tier: str):
     tmp = tempfile.mkdtemp(prefix="fcpverif-st-")
     try:
@@ -94,7 +114,7 @@ def selftest(pid: str, root: str = "/repo", tier: str = "quick", jobs: int = 16)
     p = os.path.join(HERE, "corpus", pid + ".json")
     if not os.path.exists(p):
         return {"mutants": 0, "twins": 0, "fired": 0, "silent": 0, "problems": []}
-    cases = json.load(open(p)) + seeded_cases(pid)
+    cases = json.load(open(p)) + seeded_cases(pid) + twin_cases(pid)
     res = {"mutants": 0, "twins": 0, "fired": 0, "silent": 0, "stale": 0, "problems": []}
     with ThreadPoolExecutor(max_workers=jobs) as ex:
         for case, verdict, msg in ex.map(lambda c: run_case(pid, c, root, tier), cases):
